@@ -32,6 +32,32 @@ env = dict(os.environ, CARGO_TARGET_DIR=TARGET, CARGO_NET_OFFLINE="true")
 def sh(cmd, cwd, **kw):
     return subprocess.run(cmd, cwd=cwd, shell=True, stdout=subprocess.PIPE, stderr=subprocess.STDOUT, text=True, env=env, **kw)
 
+def patched_files(*patches):
+    out = set()
+    for pf in patches:
+        for l in open(pf):
+            m = re.match(r"^(?:\+\+\+|---) [ab]/(\S+)", l)
+            if m:
+                out.add(m.group(1))
+    return out
+
+TOUCHED = os.path.join(TARGET, ".touched")
+
+def fresh_copy(repo):
+    """pristine scratch copy whose build cannot be confused with an earlier one in the same target directory: rsync keeps the old
+    modification times, so every file an earlier step or run patched (and this one will patch) is touched - cargo then rebuilds
+    the crates they belong to instead of reusing an artefact built from the patched version"""
+    shutil.rmtree(repo, ignore_errors=True)
+    subprocess.check_call(["rsync", "-a", "--exclude", "target", "--exclude", ".git", "/repo/", repo + "/"])
+    prev = set(open(TOUCHED).read().split()) if os.path.exists(TOUCHED) else set()
+    mine = patched_files(patch, demo)
+    for f in prev | mine:
+        fp = os.path.join(repo, f)
+        if os.path.exists(fp):
+            os.utime(fp, None)
+    os.makedirs(TARGET, exist_ok=True)
+    open(TOUCHED, "w").write("\n".join(sorted(prev | mine)))
+
 def tests(cwd):
     r = sh("cargo test --offline --workspace --no-fail-fast 2>&1", cwd)
     passed = sum(int(m) for m in re.findall(r"test result: \w+\. (\d+) passed", r.stdout))
@@ -44,7 +70,7 @@ d = tempfile.mkdtemp(prefix="cwseed.")
 res = {"property": pid, "seed": which, "round": ROUND or (2 if "seed2" in src else 1), "source": "independent sub-agent (given only the property text and a scratch worktree)"}
 try:
     repo = os.path.join(d, "repo")
-    subprocess.check_call(["rsync", "-a", "--exclude", "target", "--exclude", ".git", "/repo/", repo + "/"])
+    fresh_copy(repo)
     a = sh("patch -p1 < %s" % patch, repo)
     if a.returncode != 0:
         sys.exit("source patch does not apply:\n" + a.stdout)
@@ -58,8 +84,7 @@ try:
     res["demo_with_change"] = {"passed": p2, "failed": f2, "failing": fl2, "compile_error": bool(ce2)}
     print("2. demo with change: passed=%d failed=%d %s" % (p2, f2, fl2))
     # demonstration alone: a fresh pristine copy + the demo (reverting the source patch can fail when both touch neighbouring lines)
-    shutil.rmtree(repo)
-    subprocess.check_call(["rsync", "-a", "--exclude", "target", "--exclude", ".git", "/repo/", repo + "/"])
+    fresh_copy(repo)
     a = sh("patch -p1 < %s" % demo, repo)
     if a.returncode != 0:
         sys.exit("demo patch does not apply to the pristine tree:\n" + a.stdout)
